@@ -280,7 +280,7 @@ def cxxMeaning (env : Env) (ts : Toks) : Option (Option Str × CxxType) :=
   match acc.base with
   | none => none
   | some b =>
-    match cxxDeclarator env (2 * ts.length + 10) ts1 with
+    match cxxDeclarator env (4 * ts.length + 16) ts1 with
     | some (name, ops, ts2) =>
       match skipAttrs (ts2.length + 1) ts2 with
       | some ts3 =>
@@ -318,23 +318,31 @@ def denoteBase (env : Env) (s : Spec) : Option CxxType :=
     | none => none
   else some (.base s.const s.volatile (.named s.typemap))
 
+/-- operators of a declarator whose outermost level carries the suffixes `sfx` (source order):
+    its own pointer operators, then the suffixes right to left, then the nested declarator -/
+def opsOf : Declarator → List Op → List Op
+  | .leaf ps _, sfx => ps.map ptrOp ++ sfx.reverse
+  | .wrap ps i, sfx => ps.map ptrOp ++ sfx.reverse ++ declaratorOps i
+
+def denOps (dr : Option Declarator) (sfx : List Op) : List Op :=
+  match dr with
+  | none => sfx.reverse
+  | some d => opsOf d sfx
+
 mutual
+/-- the C++ type Shroud's record of a declaration stands for (parameters and array
+    dimensions are suffixes of the outermost declarator level) -/
 def denote (env : Env) : Decl → Option CxxType
   | .mk s dr params fc arr _ _ =>
-    match denoteBase env s with
+    match denoteBase env s, denoteParams env fc params with
+    | some b, some fo => some (applyOps b (denOps dr (fo ++ arr.map (fun e => Op.arr (printExpr e)))))
+    | _, _ => none
+def denoteParams (env : Env) (fc : Bool) : Option (List Decl) → Option (List Op)
+  | none => some []
+  | some ps =>
+    match denoteList env ps with
+    | some tys => some [Op.func tys fc]
     | none => none
-    | some b =>
-      let fops : Option (List Op) := match params with
-        | none => some []
-        | some ps => (denoteList env ps).map (fun tys => [Op.func tys fc])
-      match fops with
-      | none => none
-      | some fo =>
-        let sfx := fo ++ arr.map (fun e => Op.arr (printExpr e))
-        some (match dr with
-          | none => applyOps b sfx.reverse
-          | some (.leaf ps _) => applyOps b (ps.map ptrOp ++ sfx.reverse)
-          | some (.wrap ps i) => applyOps b (ps.map ptrOp ++ sfx.reverse ++ declaratorOps i))
 def denoteList (env : Env) : List Decl → Option (List CxxType)
   | [] => some []
   | p :: ps =>
